@@ -45,7 +45,7 @@ def run_property(mod, ctx, only=None, do_hunt=True):
             missing = [h.name for h in hs if h.name not in crate.meta]
             if missing:
                 raise core.BuildError("harnesses missing after codegen: %s" % missing[:5])
-            res = core.run_jobs(crate, hs, _budget(ctx), order_seed=ctx.seed)
+            res = core.run_jobs(crate, hs, _budget(ctx), order_seed=ctx.seed, witness_every=8 if ctx.quick else 1)
         except core.BuildError as e:
             build_err = str(e)
             sys.stderr.write("[%s] BUILD ERROR: %s\n" % (pid, build_err))
@@ -201,6 +201,7 @@ def write_evidence(pid, ctx, spec, results, known_hits, violations, inconclusive
             "codegen_time_s": round(codegen_s, 1),
             "smt_overflow_repair_sites": sum(r.repair_sites for r in results),
             "vacuity_witnesses_reachable": sum(1 for r in results if r.witness),
+            "vacuity_witness_policy": "every e1 job; e2: every job of harnesses without skeletons, every 8th skeleton job in quick, all in thorough",
             "repo_tree_hash": core.tree_hash(),
             "known_findings_hit": [{"job": r.key(), "what": k["what"]} for r, k in known_hits],
             "inconclusive": [{"job": r.key(), "why": why[:300]} for r, why in inconclusive][:20],
